@@ -11,6 +11,7 @@ Index / count / weight-valued results on correspondingly translated points:  unc
 -/
 import Model.EntryPoints
 import Proofs.EntryPoints
+import Proofs.EntryPointsDelaunay
 import Mathlib.Data.Rat.Floor
 
 open Model
@@ -139,6 +140,32 @@ theorem rectangular_mapper_table_invariant (trunc : α → Int) (mesh : Geom α)
     Impl.rectangularPixIndexes trunc (mesh.shift d) (grid.map (shiftPt d))
       = Impl.rectangularPixIndexes trunc mesh grid :=
   rectangularPixIndexes_shift trunc mesh grid d hs1 hs2
+
+/-- Delaunay pixelization on a translated source-plane grid and translated mesh vertices: index
+    table, sizes and interpolation weights (`MapperDelaunay.pix_sub_weights`, hence its mapping matrix)
+    are unchanged — given that Qhull returns the same simplices and the same located simplex for each
+    point (its contract; translation commutes with every orientation predicate) and that the vertex
+    indexes of located simplices are valid mesh indexes. -/
+theorem delaunay_mapper_tables_invariant (grid mesh : List (α × α)) (simplexFor : List Int)
+    (simplices : List (List Int)) (d : α × α)
+    (hidx : ∀ sub, sub < grid.length →
+      ((Impl.pixIndexesDelaunay grid simplexFor simplices mesh).1.getD sub []).getD 1 (-1) ≠ -1 →
+      ∀ k, k < 3 →
+        (((Impl.pixIndexesDelaunay grid simplexFor simplices mesh).1.getD sub []).getD k 0).toNat
+          < mesh.length) :
+    Impl.delaunayPixSubWeights (grid.map (shiftPt d)) (mesh.map (shiftPt d)) simplexFor simplices
+      = Impl.delaunayPixSubWeights grid mesh simplexFor simplices :=
+  delaunayPixSubWeights_shift grid mesh simplexFor simplices d hidx
+
+/-- `Grid2D.grid_2d_radial_projected_from(centre, angle)`: with the extent of the translated mask and
+    the translated centre, the projected line translates by `d` — for ANY `int()` and any rotation -/
+theorem radial_projected_covariant (trunc : α → Int) (rot : α × α → α × α) (shape : Nat × Nat)
+    (s o c d : α × α) (shapeSlim : Nat) :
+    Impl.radialProjected trunc rot (Impl.extent shape s (o.1 + d.1, o.2 + d.2)) s
+        (c.1 + d.1, c.2 + d.2) shapeSlim
+      = (Impl.radialProjected trunc rot (Impl.extent shape s o) s c shapeSlim).map (shiftPt d) := by
+  rw [extent_shift]
+  exact radialProjected_shift trunc rot (Impl.extent shape s o) s c d shapeSlim
 
 /-- dataset operations return arrays whose record is the input record with at most a new shape
     (apply_noise_scaling, simulator, S/N-limited noise map after repairs D10c–e; trimming): record
